@@ -1247,6 +1247,19 @@ func conv(ex *Exec, t_dst, t_src types.Type, x value) value {
 	if isSym(x) {
 		return ex.symConv(t_dst, t_src, x)
 	}
+	if sl, ok := x.([]value); ok {
+		if b, isB := t_dst.Underlying().(*types.Basic); isB && b.Kind() == types.String {
+			if et, isS := t_src.Underlying().(*types.Slice); isS {
+				if eb, isEB := et.Elem().Underlying().(*types.Basic); isEB && eb.Kind() == types.Int32 {
+					for _, r := range sl {
+						if _, isSym := r.(symBV); isSym {
+							return ex.runesToRope(sl)
+						}
+					}
+				}
+			}
+		}
+	}
 	if sl, ok := x.([]value); ok && hasSymByte(sl) {
 		if b, ok := t_dst.Underlying().(*types.Basic); ok && b.Kind() == types.String {
 			r := toRope(sl)
